@@ -66,7 +66,7 @@ BOUNDS = (
     "histories of two requests per app with independent Accept per request; "
     "client: JSON value of depth<=2 with symbolic strings len<=%d / small ints, or any non-JSON body len<=%d (UTF-8 or not), "
     "or a body json.loads gives up on with RecursionError"
-    % (pick(10, 12), pick(3, 4), pick(2, 4))
+    % (pick(10, 12), pick(3, 4), pick(2, 3))
 )
 OUTSIDE = (
     "Falcon's own routing of HTTPError to the serializer and of a raising middleware past the resource (C20); the inline derivation of "
@@ -765,7 +765,11 @@ def _real_401_problem(kk: int, detail: str, cfg: int, accept: str | None, servic
     r = _real_401(kk, detail, cfg, accept_wire, service)
     hint = _proxied(cfg)
     h = {k.lower(): v for k, v in r.headers.items()}
-    where = f"{_CONFIGS[cfg][0]}, callback raising {type(_mk_exc(kk, detail)).__name__}({detail!r}), Accept={accept!r}: HTTP {r.status_code} headers={ {k: h[k] for k in h if k.startswith('vgi-auth') or k in ('cache-control', 'retry-after', 'content-type')} } body={r.content[:160]!r}"
+    what = "callback accepting" if kk == K_ACCEPT else f"callback raising {type(_mk_exc(kk, detail)).__name__}({detail!r})"
+    where = f"{_CONFIGS[cfg][0]}, {what}, Accept={accept!r}: HTTP {r.status_code} headers={ {k: h[k] for k in h if k.startswith('vgi-auth') or k in ('cache-control', 'retry-after', 'content-type')} } body={r.content[:160]!r}"
+    if kk == K_ACCEPT:
+        # an accepted request is not answered by the auth layer (whatever the method then makes of an empty body)
+        return None if (r.status_code not in (401, 503) and _H_REASON not in h and _H_PROXY not in h) else where + " — an accepted request got a rejection"
     if kk == K_UNAVAIL:
         return None if (r.status_code == 503 and _H_REASON not in h and _H_PROXY not in h) else where + " — an outage must be a 503 without the 401 headers"
     if kk == K_BUG and r.status_code != 401:
@@ -900,7 +904,7 @@ def proxy_note_uniform_across_failures(proxied: bool, i1: int, i2: int, mode: in
 # ---------------------------------------------------------------------------
 
 _LJ = pick(3, 4)
-_LB = pick(2, 4)
+_LB = pick(2, 3)  # (4 symbolic bytes through bytes.decode(errors="replace") did not exhaust within 400 s CPU)
 _J: dict = {"value": None, "fail": 0, "calls": 0}
 _PAYLOAD: dict = {}
 _LISTV = ["missing_credential"]  # non-scalar values an intermediary might put there (concrete: str() of a container of symbolic values is not modelled)
@@ -953,7 +957,11 @@ class _ScanSet:
         return iter(self._values)
 
 
-_parse_stubbed = reglobalize(cl._parse_unauthorized, json=_JsonStub(), _AUTH_REASONS=_ScanSet(cl._AUTH_REASONS))
+try:
+    _parse_stubbed = reglobalize(cl._parse_unauthorized, json=_JsonStub(), _AUTH_REASONS=_ScanSet(cl._AUTH_REASONS))
+except (LookupError, AttributeError):
+    # the parser no longer looks codes up in that container: only the C library is replaced
+    _parse_stubbed = reglobalize(cl._parse_unauthorized, json=_JsonStub())
 
 
 def _parse(fn, body):  # type: ignore[no-untyped-def]
